@@ -98,6 +98,20 @@ def _apply_real(c, op):
             return ("ok", tuple(c.values()))
         if name == "items":
             return ("ok", tuple(tuple(x) for x in c.items()))
+        if name == "iterreads":
+            # a live iterator while the cache is READ (reads refresh recency inside the cache): yields the keys
+            # present when it was created, and never fails
+            it = reversed(c) if op[1] else iter(c)
+            got = []
+            for k in it:
+                got.append(k)
+                if op[2] == 0:
+                    c[k]
+                elif op[2] == 1:
+                    c.get(k)
+                else:
+                    k in c  # noqa: B015
+            return ("ok", tuple(got))
     except T.SimAbort:
         raise
     except KeyError:
@@ -109,9 +123,9 @@ def _apply_real(c, op):
 
 SEQ_OPS = (
     "set", "getitem", "get", "del", "setdefault", "in", "len", "clear",
-    "keys", "values", "items", "iter", "reversed", "copy", "copy.copy", "pickle",
+    "keys", "values", "items", "iter", "reversed", "copy", "copy.copy", "pickle", "iterreads", "unhashable",
 )
-SEQ_W = (8, 5, 4, 3, 3, 2, 1, 1, 1, 1, 2, 1, 1, 2, 1, 2)
+SEQ_W = (8, 5, 4, 3, 3, 2, 1, 1, 1, 1, 2, 1, 1, 2, 1, 2, 1, 1)
 
 
 def run_sequential(tape, out: Outcome) -> None:
@@ -160,6 +174,14 @@ def _run_sequential(tape, out: Outcome) -> None:
                 op = (name, tape.pick(KEYS))
                 if name == "get" and tape.draw(2):
                     op = op + ("dflt",)
+            elif name == "iterreads":
+                op = (name, tape.draw(2), tape.draw(3))
+            elif name == "unhashable":
+                # a key that cannot be hashed: the call fails with TypeError and leaves the cache exactly as it was
+                sub = tape.pick(["set", "getitem", "get", "del", "setdefault", "in"])
+                op = (sub, ["u"]) + ((0,) if sub in ("set", "setdefault") else ())
+                name = sub
+                out.count("seq_unhashable_key_ops")
             elif name in ("set", "setdefault"):
                 val += 1
                 k_ = tape.pick(KEYS)
@@ -171,7 +193,7 @@ def _run_sequential(tape, out: Outcome) -> None:
             else:
                 op = (name,)
             before = len(m.map)
-            is_new = name in ("set", "setdefault") and op[1] not in m.map
+            is_new = name in ("set", "setdefault") and not isinstance(op[1], list) and op[1] not in m.map
             ops_dec.append([si, *op])
             got = _apply_real(c, op)
             exp = m.apply(op)
